@@ -25,7 +25,7 @@ RULE = ("Krylov: Hermitian A = Q diag(w) Q^H, real/complex, n in 1..150, spectra
         "through economic SVD, full SVD (optimised and plain), QR and RQ in economic and full form. eigh_qn: random "
         "PSD (full-rank and rank-deficient) density matrices, both systems. In-situ: random models with quantum "
         "numbers, Mps.random -> canonicalise -> compress -> one TDVP-PS / TDVP-PS2 step (real or imaginary time) or "
-        "a 2-root DMRG sweep, with the contracts attached. A sub-case is non-trivial when the decomposed matrix has "
+        "a 2-root DMRG sweep, or the same on a TTNS (binary/linear tree, TDVP-PS), with the contracts attached. A sub-case is non-trivial when the decomposed matrix has "
         ">= 2 symmetry sectors with entries on both sides or the Krylov run needed >= 2 Lanczos vectors; distinct by "
         "(case index, sub-case index) of the deterministic generator.")
 ASSUMPTIONS = [
@@ -57,7 +57,7 @@ EIGH_RUNS = 8
 def _layout(tier):
     if tier == "quick":
         return [("krylov", 1200), ("svd", 800), ("eigh", 160), ("insitu", 160)]
-    return [("krylov", 24000), ("svd", 16000), ("eigh", 3000), ("insitu", 3000)]
+    return [("krylov", 48000), ("svd", 32000), ("eigh", 6000), ("insitu", 6000)]
 
 
 def _kind(tier, idx):
@@ -89,7 +89,7 @@ def plan(tier):
             "krylov:rank-deficient", "krylov:diagonal", "krylov:block_size=2", "krylov:block_size=50",
             "svd:left-only-sector", "svd:right-only-sector", "svd:two-component", "svd:single-sector",
             "svd:opt-branch", "svd:complex", "svd:two-index-side", "svd:zero-block", "eigh:L", "eigh:R",
-            "eigh:rank-deficient", "insitu:tdvp_ps", "insitu:tdvp_ps2", "insitu:dmrg-2roots", "insitu:imaginary-time",
+            "eigh:rank-deficient", "insitu:tdvp_ps", "insitu:tdvp_ps2", "insitu:dmrg-2roots", "insitu:ttns-tdvp_ps", "insitu:imaginary-time",
         ],
         "required_counters": {
             "oracle": half(12, nk) + half(33, ns) + half(7.5, ne) + half(25, ni),
@@ -608,6 +608,44 @@ def _eigh_case(ctx):
 
 
 # =============================================================================================== in situ
+def _insitu_tree(ctx, gm, terms, mpo, qntot, m_max, tau):
+    """The same contracts at the call sites of renormalizer.tn (tree.py: svd_qn, time_evolution.py: expm_krylov)."""
+    from renormalizer.tn import BasisTree, TTNO, TTNS
+    from renormalizer.utils import EvolveConfig, EvolveMethod
+    rng = ctx.rng
+    shape = str(rng.choice(["binary", "linear"]))
+    ctx.cls("insitu:tree-" + shape)
+    tree = _lib_step(ctx, "BasisTree", getattr(BasisTree, shape), list(gm.basis))
+    ttno = _lib_step(ctx, "TTNO", TTNO, tree, list(terms))
+    env.reseed_global(rng)
+    with np.errstate(all="ignore"):
+        ttns = _lib_step(ctx, "TTNS.random", TTNS.random, tree, qntot, m_max, 1.0)
+    if not all(np.all(np.isfinite(np.asarray(node.tensor))) for node in ttns.node_list):
+        ctx.refuse("insitu TTNS.random: non-finite tensors")
+        return
+    ctx.evaluations += 1
+    _lib_step(ctx, "ttns.canonicalise", ttns.canonicalise)
+    _lib_step(ctx, "ttns.compress", ttns.compress)
+    hd = np.asarray(_lib_step(ctx, "todense", mpo.todense))
+    hnorm = float(np.linalg.norm(hd, 2))
+    if not np.isfinite(hnorm) or hnorm == 0:
+        ctx.refuse("insitu: operator norm zero or non-finite")
+        return
+    ttns.evolve_config = EvolveConfig(EvolveMethod.tdvp_ps)
+    env.reseed_global(rng)
+    _lib_step(ctx, "ttns.evolve", ttns.evolve, ttno, tau / hnorm)
+    _insitu_account(ctx)
+
+
+def _insitu_account(ctx):
+    c = monitors.COUNTS
+    ncalls = c.get("svd_qn_callsite_evals", 0) + c.get("krylov_callsite_evals", 0) + c.get("eigh_qn_callsite_evals", 0)
+    ctx.count("oracle", ncalls)
+    ctx.evaluations += ncalls
+    if c.get("svd_qn_multi_sector_evals", 0) or c.get("krylov_post_checked", 0):
+        ctx.nontrivial(("insitu", ctx.idx))
+
+
 KERNEL_FILES = ("renormalizer/mps/svd_qn.py", "renormalizer/lib/krylov/krylov.py")
 
 
@@ -632,8 +670,12 @@ def _insitu_case(ctx):
     from renormalizer.utils import EvolveConfig, EvolveMethod
     from rv import dense, gen
     rng = ctx.rng
-    variant = ["tdvp_ps", "tdvp_ps", "tdvp_ps2", "dmrg-2roots"][ctx.idx % 4]
+    variant = ["tdvp_ps", "tdvp_ps", "tdvp_ps2", "dmrg-2roots", "ttns-tdvp_ps"][ctx.idx % 5]
     qn_mode = "two" if rng.random() < 0.2 else "one"
+    if variant == "ttns-tdvp_ps":
+        # TTNS.evolve -> normalize -> ttns_norm builds TTNO.dummy with one-component labels and raises "Inconsistent
+        # quantum number size" for two-component models (not a kernel matter; seen while calibrating)
+        qn_mode = "one"
     cap = 64 if variant == "tdvp_ps2" else 200
     for _ in range(50):
         gm = gen.random_basis_list(rng, nsite=(3, 6), max_dim=cap, qn_mode=qn_mode, min_dim=8)
@@ -644,7 +686,7 @@ def _insitu_case(ctx):
         return
     # state-averaged DMRG asserts on a real state with a complex operator: mostly real operators there, and the
     # state is made complex when the operator is
-    allow_complex = bool(rng.random() < (0.3 if variant == "dmrg-2roots" else 0.6))
+    allow_complex = bool(rng.random() < {"dmrg-2roots": 0.3, "ttns-tdvp_ps": 0.0}.get(variant, 0.6))
     terms = gen.hermitian_terms(rng, gm, int(rng.integers(3, 10)), max_support=3, allow_complex=allow_complex,
                                 charge_conserving=True, scale=1.0)
     if not terms:
@@ -659,7 +701,7 @@ def _insitu_case(ctx):
         return
     qntot = np.asarray(big[int(rng.integers(0, len(big)))], dtype=int)
     m_max = int(rng.integers(2, 5)) if variant == "tdvp_ps2" else int(rng.integers(2, 9))
-    imaginary = variant != "dmrg-2roots" and bool(rng.random() < 0.3)
+    imaginary = variant in ("tdvp_ps", "tdvp_ps2") and bool(rng.random() < 0.3)
     tau = float(rng.choice([0.05, 0.5, 3.0, 10.0]))       # ||H|| * step, so that the local problems stay moderate
     ctx.describe({"kind": "insitu", "variant": variant, "model": gm.describe(), "terms": gen.terms_describe(terms, 20),
                   "qntot": qntot.tolist(), "m_max": m_max, "imaginary_time": imaginary, "norm_H_step": tau})
@@ -668,6 +710,8 @@ def _insitu_case(ctx):
         ctx.cls("insitu:imaginary-time")
     model = _lib_step(ctx, "Model", Model, list(gm.basis), list(terms))
     mpo = _lib_step(ctx, "Mpo", Mpo, model)
+    if variant == "ttns-tdvp_ps":
+        return _insitu_tree(ctx, gm, terms, mpo, qntot, m_max, tau)
     env.reseed_global(rng)
     with np.errstate(all="ignore"):
         mps = _lib_step(ctx, "Mps.random", Mps.random, model, qntot, m_max, 1.0)
@@ -696,9 +740,4 @@ def _insitu_case(ctx):
         dt = -1j * h if imaginary else h
         env.reseed_global(rng)
         _lib_step(ctx, "evolve", mps.evolve, mpo, dt)
-    c = monitors.COUNTS
-    ncalls = c.get("svd_qn_callsite_evals", 0) + c.get("krylov_callsite_evals", 0) + c.get("eigh_qn_callsite_evals", 0)
-    ctx.count("oracle", ncalls)
-    ctx.evaluations += ncalls
-    if c.get("svd_qn_multi_sector_evals", 0) or c.get("krylov_post_checked", 0):
-        ctx.nontrivial(("insitu", ctx.idx))
+    _insitu_account(ctx)
